@@ -303,6 +303,26 @@ impl Drop for Dir {
     }
 }
 
+static FAT_DROPS: std::sync::atomic::AtomicUsize = std::sync::atomic::AtomicUsize::new(0);
+
+/// a list node with a large inline payload (4 KiB): the stack a cascade needs must not depend on the size of the
+/// objects it destroys (a destructor that moves the payload to the stack before dropping it multiplies the frame)
+struct FatNode {
+    next: circ::AtomicRc<FatNode>,
+    payload: [u64; 512],
+}
+unsafe impl circ::RcObject for FatNode {
+    fn pop_edges(&mut self, out: &mut Vec<Rc<Self>>) {
+        out.push(self.next.take());
+    }
+}
+impl Drop for FatNode {
+    fn drop(&mut self) {
+        std::hint::black_box(&self.payload);
+        FAT_DROPS.fetch_add(1, SeqCst);
+    }
+}
+
 /// `wide`: one directory of n files, each owning a blob, all released from destructors (every release is a
 /// decrement_strong issued while a collection is running).  `comb`: a root with w children, each the head of a
 /// chain of l nodes: the depth cap is hit w times while the cascade is deep, so the re-deferrals overflow the bag.
@@ -327,6 +347,30 @@ pub fn stack_probe_kind(kind: &str, n: usize, stack: usize) -> bool {
                     r += 1;
                 }
                 WIDE_DROPS.load(SeqCst) == want
+            }
+            "fat" => {
+                FAT_DROPS.store(0, SeqCst);
+                for _ in 0..6 {
+                    round();
+                }
+                let g = circ::cs();
+                let mut head: Rc<FatNode> = Rc::null();
+                for i in 0..n {
+                    let nd = Rc::new(FatNode { next: circ::AtomicRc::null(), payload: [i as u64; 512] });
+                    unsafe { nd.deref() }.next.store(head, SeqCst, &g);
+                    head = nd;
+                }
+                drop(g);
+                for _ in 0..4 {
+                    round();
+                }
+                drop(head);
+                let mut r = 0;
+                while FAT_DROPS.load(SeqCst) < n && r < 60 * (n / 1024 + 1) + 200 {
+                    round();
+                    r += 1;
+                }
+                FAT_DROPS.load(SeqCst) == n
             }
             _ => {
                 // comb: w = n / 1500 teeth of 1500 nodes
